@@ -575,6 +575,8 @@ class EdgeQLSourceGenerator(codegen.SourceGenerator):
         self.write(')')
 
     def visit_TypeOp(self, node: qlast.TypeOp) -> None:
+        if node.name is not None:
+            self.write(ident_to_str(node.name), ': ')
         self.write('(')
         self.visit(node.left)
         self.write(' ' + str(node.op).upper() + ' ')
@@ -939,6 +941,8 @@ class EdgeQLSourceGenerator(codegen.SourceGenerator):
         self.visit(node.type)
 
     def visit_TypeOf(self, node: qlast.TypeOf) -> None:
+        if node.name is not None:
+            self.write(ident_to_str(node.name), ': ')
         self.write('TYPEOF ')
         self.visit(node.expr)
 
